@@ -36,9 +36,16 @@ def conc(v, U):
     return v[0] * U + v[1]
 
 
-def mk_arena(n, dtype, poison):
-    a = np.full(n + 2 * G, poison, dtype=dtype)
-    return a, a[G:G + n]
+def mk_arena(n, dtype, poison, stride=1):
+    """an array of n elements inside poisoned guard cells; stride 2 = a non-contiguous view whose in-between cells are guards too"""
+    a = np.full(stride * (n + 2 * G), poison, dtype=dtype)
+    return a, a[stride * G:stride * (G + n):stride]
+
+
+def guards_intact(arena, n, poison, stride=1):
+    m = np.ones(len(arena), bool)
+    m[stride * G:stride * (G + n):stride] = False
+    return bool(np.all(arena[m] == poison))
 
 
 def run_case(cumsum, case, exp, pair, poison_idx, compiled=True):
@@ -54,9 +61,9 @@ def run_case(cumsum, case, exp, pair, poison_idx, compiled=True):
             return None  # numba cannot type an empty reflected list (not a cumsum concern)
         arr_arena, arr = None, [int(v) for v in vals]
     else:
-        arr_arena, arr = mk_arena(len(vals), adt, ap)
+        arr_arena, arr = mk_arena(len(vals), adt, ap, 1 + poison_idx)
         arr[:] = vals
-    out_arena, out = mk_arena(c['outlen'], odt, op)
+    out_arena, out = mk_arena(c['outlen'], odt, op, 2 - poison_idx)
     if np.issubdtype(odt, np.integer):
         off = int(off)
     try:
@@ -68,11 +75,11 @@ def run_case(cumsum, case, exp, pair, poison_idx, compiled=True):
         return f'out-of-bounds access ({type(e).__name__}: {e})'
     # guards
     if arr_arena is not None:
-        if not (np.all(arr_arena[:G] == ap) and np.all(arr_arena[G + len(vals):] == ap)):
+        if not guards_intact(arr_arena, len(vals), ap, 1 + poison_idx):
             return 'input guard cells modified (write outside the input array)'
         if not np.array_equal(arr, np.array(vals, dtype=adt)):
             return 'input array modified'
-    if not (np.all(out_arena[:G] == op) and np.all(out_arena[G + c['outlen']:] == op)):
+    if not guards_intact(out_arena, c['outlen'], op, 2 - poison_idx):
         return 'output guard cells modified (write outside the output array)'
     if exp['raises']:
         if raised is None:
